@@ -141,6 +141,12 @@ def make_environ(req, stream, content_length='equal', extra=None):
         env['CONTENT_LENGTH'] = ''
     else:
         env['CONTENT_LENGTH'] = str(int(content_length))
+    if getattr(req, 'env', None):
+        for k, v in req.env.items():
+            if v is None:
+                env.pop(k, None)        # variable omitted by the gateway
+            else:
+                env[k] = v
     if extra:
         env.update(extra)
     return env
